@@ -8,25 +8,164 @@ use serde_json::{json, Value};
 use crate::engine::{fingerprint_json, Ctx, Outcome, Plan, Property, Tier};
 use crate::props::c08;
 use crate::qgen::QGen;
-use crate::rank::close64;
+use crate::rank::{close, close64};
 use crate::scoreworld::{self, World, WorldOpts};
 use crate::sut;
 
-/// structural JSON equality with a relative tolerance on non-integer numbers
-pub fn json_close(a: &Value, b: &Value) -> bool {
+/// Result of comparing two aggregation responses.
+#[derive(Clone, Copy, Debug, PartialEq, Eq)]
+pub enum AggEq {
+  Same,
+  /// equal except that some score-sorted `top_hits` list holds other documents at positions whose
+  /// scores are within the f32 score tolerance in both responses (a near tie decided by rounding)
+  NearTie,
+  Different,
+}
+
+impl AggEq {
+  fn and(self, o: AggEq) -> AggEq {
+    match (self, o) {
+      (AggEq::Different, _) | (_, AggEq::Different) => AggEq::Different,
+      (AggEq::NearTie, _) | (_, AggEq::NearTie) => AggEq::NearTie,
+      _ => AggEq::Same,
+    }
+  }
+}
+
+fn num_close(x: &serde_json::Number, y: &serde_json::Number) -> bool {
+  if let (Some(i), Some(j)) = (x.as_i64(), y.as_i64()) {
+    return i == j;
+  }
+  match (x.as_f64(), y.as_f64()) {
+    (Some(f), Some(g)) => close64(f, g),
+    _ => x == y,
+  }
+}
+
+/// hit scores are f32 sums whose order depends on the execution strategy and on hash order
+/// (DESIGN §8): they are compared with the f32 score tolerance, not as f64 aggregates
+fn score_close(a: &Value, b: &Value) -> bool {
+  match (a.as_f64(), b.as_f64()) {
+    (Some(f), Some(g)) => close(f as f32, g as f32),
+    _ => a == b,
+  }
+}
+
+fn is_top_hits(m: &serde_json::Map<String, Value>) -> bool {
+  m.get("type").and_then(|t| t.as_str()) == Some("top_hits") && m.get("hits").map(|h| h.is_array()).unwrap_or(false)
+}
+
+/// one `top_hits` hit against another: everything but the score exact, the score within the f32 tolerance
+fn hit_close(a: &Value, b: &Value) -> bool {
   match (a, b) {
-    (Value::Number(x), Value::Number(y)) => {
-      if let (Some(i), Some(j)) = (x.as_i64(), y.as_i64()) {
-        return i == j;
-      }
-      match (x.as_f64(), y.as_f64()) {
-        (Some(f), Some(g)) => close64(f, g),
-        _ => x == y,
+    (Value::Object(x), Value::Object(y)) => x.len() == y.len() && x.iter().all(|(k, v)| y.get(k).map(|w| if k == "score" { score_close(v, w) } else { v == w }).unwrap_or(false)),
+    _ => a == b,
+  }
+}
+
+fn top_hits_cmp(a: &serde_json::Map<String, Value>, b: &serde_json::Map<String, Value>, score_ties: bool) -> AggEq {
+  // every member but the hit list is exact (total, type)
+  if a.len() != b.len() || !a.iter().all(|(k, v)| k == "hits" || b.get(k) == Some(v)) {
+    return AggEq::Different;
+  }
+  let (ha, hb) = (a["hits"].as_array().unwrap(), b.get("hits").and_then(|h| h.as_array()).map(|v| v.as_slice()).unwrap_or(&[]));
+  if ha.len() != hb.len() {
+    return AggEq::Different;
+  }
+  let mut res = AggEq::Same;
+  for (x, y) in ha.iter().zip(hb.iter()) {
+    if hit_close(x, y) {
+      continue;
+    }
+    // the tie rule of DESIGN §8: when the list is ordered by a key that uses _score, the position may
+    // hold another document provided the scores at the position agree within tolerance and every
+    // document present in both lists carries the same score (within tolerance) in both
+    if !score_ties || x["doc_id"] == y["doc_id"] || !score_close(&x["score"], &y["score"]) {
+      return AggEq::Different;
+    }
+    res = AggEq::NearTie;
+  }
+  if res == AggEq::NearTie {
+    for x in ha.iter() {
+      if let Some(y) = hb.iter().find(|y| y["doc_id"] == x["doc_id"]) {
+        if !score_close(&x["score"], &y["score"]) {
+          return AggEq::Different;
+        }
       }
     }
-    (Value::Array(x), Value::Array(y)) => x.len() == y.len() && x.iter().zip(y.iter()).all(|(p, q)| json_close(p, q)),
-    (Value::Object(x), Value::Object(y)) => x.len() == y.len() && x.iter().all(|(k, v)| y.get(k).map(|w| json_close(v, w)).unwrap_or(false)),
-    _ => a == b,
+  }
+  res
+}
+
+/// Structural comparison of two aggregation (or suggest) responses: counts, keys and ids exact, f64
+/// aggregates within 1e-9 relative, `top_hits` hit scores within the f32 score tolerance (1e-5
+/// relative). `score_ties` says that some `top_hits` of the request orders by `_score`, so that
+/// positions of its list may be swapped among near-tied documents (reported as `NearTie`).
+pub fn agg_cmp(a: &Value, b: &Value, score_ties: bool) -> AggEq {
+  match (a, b) {
+    (Value::Number(x), Value::Number(y)) => {
+      if num_close(x, y) {
+        AggEq::Same
+      } else {
+        AggEq::Different
+      }
+    }
+    (Value::Array(x), Value::Array(y)) => {
+      if x.len() != y.len() {
+        return AggEq::Different;
+      }
+      x.iter().zip(y.iter()).fold(AggEq::Same, |acc, (p, q)| if acc == AggEq::Different { acc } else { acc.and(agg_cmp(p, q, score_ties)) })
+    }
+    (Value::Object(x), Value::Object(y)) => {
+      if is_top_hits(x) {
+        return top_hits_cmp(x, y, score_ties);
+      }
+      if x.len() != y.len() {
+        return AggEq::Different;
+      }
+      x.iter().fold(AggEq::Same, |acc, (k, v)| {
+        if acc == AggEq::Different {
+          return acc;
+        }
+        match y.get(k) {
+          Some(w) => acc.and(agg_cmp(v, w, score_ties)),
+          None => AggEq::Different,
+        }
+      })
+    }
+    _ => {
+      if a == b {
+        AggEq::Same
+      } else {
+        AggEq::Different
+      }
+    }
+  }
+}
+
+/// strict form: the same documents at the same positions everywhere
+pub fn json_close(a: &Value, b: &Value) -> bool {
+  agg_cmp(a, b, false) == AggEq::Same
+}
+
+/// does some `top_hits` of the aggregation tree order by `_score` (explicitly, or by its default sort)?
+pub fn top_hits_orders_by_score(aggs: &Value) -> bool {
+  match aggs {
+    Value::Object(m) => {
+      if m.get("type").and_then(|t| t.as_str()) == Some("top_hits") {
+        match m.get("sort").and_then(|s| s.as_array()) {
+          None => return true,
+          Some(keys) => {
+            if keys.is_empty() || keys.iter().any(|k| k["field"] == "_score") {
+              return true;
+            }
+          }
+        }
+      }
+      m.values().any(top_hits_orders_by_score)
+    }
+    Value::Array(a) => a.iter().any(top_hits_orders_by_score),
+    _ => false,
   }
 }
 
@@ -144,7 +283,7 @@ impl Property for C13 {
   type Case = Case;
   const ID: &'static str = "C13";
   fn rule() -> String {
-    "cases = corpus (5-60 docs, 1-4 segments, deletions), query, optional filter, an aggregation tree (depth<=2 incl. top_hits, composite, metrics) and optionally a completion suggest request; a base response (limit covering all matches, bm25, default sort) is compared with 5 variations: limit 1/3/n, return_hits=false, sort plans, wand/bmw with block sizes, explain/profile, rescore, and every page of a cursor walk; aggregations and suggest must be equal (counts exact, floats 1e-9 relative). Non-trivial = a walk of >=2 pages with a metric or top_hits in the tree, or base and variation differ in whether scores are computed (score sort vs field sort); distinct = hash of (aggs, variation, query)".into()
+    "cases = corpus (5-60 docs, 1-4 segments, deletions), query, optional filter, an aggregation tree (depth<=2 incl. top_hits, composite, metrics) and optionally a completion suggest request; a base response (limit covering all matches, bm25, default sort) is compared with 5 variations: limit 1/3/n, return_hits=false, sort plans, wand/bmw with block sizes, explain/profile, rescore, and every page of a cursor walk; aggregations and suggest must be equal (counts, keys and document ids exact, f64 aggregates 1e-9 relative, top_hits hit scores - f32 sums whose order depends on the execution strategy - 1e-5 relative; a score-ordered top_hits list may swap documents whose scores are within that tolerance, counted as class top_hits-near-tie-not-judged). Non-trivial = a walk of >=2 pages with a metric or top_hits in the tree, or base and variation differ in whether scores are computed (score sort vs field sort); distinct = hash of (aggs, variation, query)".into()
   }
   fn plan(tier: Tier) -> Plan {
     Plan { workers: 16, cases_per_worker: tier.pick(600, 12000) }
@@ -207,6 +346,7 @@ impl Property for C13 {
     let base_sug = serde_json::to_value(&base_res.suggest).unwrap();
     let has_metric = ["stats", "extended_stats", "value_count", "top_hits", "percentiles", "cardinality"].iter().any(|t| has_type(&case.aggs, t));
     let has_top_hits = has_type(&case.aggs, "top_hits");
+    let score_ties = top_hits_orders_by_score(&case.aggs);
     let known_cursor = ctx.is_known(Self::ID, SIG_CURSOR);
     let known_matchonly = ctx.is_known(Self::ID, SIG_MATCHONLY);
     for v in case.variations.iter() {
@@ -246,7 +386,12 @@ impl Property for C13 {
         };
         let aggs = serde_json::to_value(&res.aggregations).unwrap();
         let sug = serde_json::to_value(&res.suggest).unwrap();
-        if !json_close(&aggs, &base_aggs) {
+        let cmp = agg_cmp(&aggs, &base_aggs, score_ties);
+        if cmp == AggEq::NearTie {
+          // not judged: which of two documents whose scores differ by f32 rounding comes first
+          out.class("top_hits-near-tie-not-judged");
+        }
+        if cmp == AggEq::Different {
           let detail = format!("aggregations differ from the base request: {aggs} vs base {base_aggs}; variation request {r}");
           if page > 0 {
             out.fail(SIG_CURSOR, detail);
@@ -292,5 +437,63 @@ impl Property for C13 {
       }
     }
     out
+  }
+}
+
+#[cfg(test)]
+mod tests {
+  use super::*;
+
+  fn th(hits: &[(&str, f64)], total: u64) -> Value {
+    json!({"a": {"type": "top_hits", "total": total, "hits": hits.iter().map(|(d, s)| json!({"doc_id": d, "score": s, "fields": null, "snippet": null})).collect::<Vec<_>>()}})
+  }
+
+  #[test]
+  fn one_ulp_of_an_f32_score_is_not_a_difference() {
+    // the pair observed on the unchanged tree (bm25 vs bmw), VERIF_SEED=1
+    let a = th(&[("d00025", 10.968074798583984)], 3);
+    let b = th(&[("d00025", 10.968073844909668)], 3);
+    assert_eq!(agg_cmp(&a, &b, false), AggEq::Same);
+    assert!(json_close(&a, &b));
+  }
+
+  #[test]
+  fn gross_score_changes_and_counts_are_differences() {
+    let a = th(&[("d1", 2.5)], 3);
+    assert_eq!(agg_cmp(&a, &th(&[("d1", 0.0)], 3), true), AggEq::Different);
+    assert_eq!(agg_cmp(&a, &th(&[("d1", 1.0)], 3), true), AggEq::Different);
+    assert_eq!(agg_cmp(&a, &th(&[("d1", 2.5001)], 3), true), AggEq::Different);
+    assert_eq!(agg_cmp(&a, &th(&[("d1", 2.5)], 2), true), AggEq::Different);
+    assert_eq!(agg_cmp(&a, &th(&[], 3), true), AggEq::Different);
+  }
+
+  #[test]
+  fn other_document_only_among_near_ties_of_a_score_ordered_list() {
+    let a = th(&[("d1", 2.5000002), ("d2", 2.5)], 5);
+    let b = th(&[("d2", 2.5), ("d1", 2.5)], 5);
+    assert_eq!(agg_cmp(&a, &b, true), AggEq::NearTie);
+    // not when no top_hits of the request orders by _score
+    assert_eq!(agg_cmp(&a, &b, false), AggEq::Different);
+    // not when the scores at the position are apart
+    assert_eq!(agg_cmp(&th(&[("d1", 2.5)], 5), &th(&[("d2", 2.4)], 5), true), AggEq::Different);
+    // not when a document of both lists carries different scores
+    assert_eq!(agg_cmp(&th(&[("d1", 2.5), ("d2", 2.5)], 5), &th(&[("d2", 2.5), ("d1", 2.5)], 5), true), AggEq::NearTie);
+    assert_eq!(agg_cmp(&th(&[("d1", 2.5), ("d2", 1.0)], 5), &th(&[("d3", 2.5), ("d1", 1.0)], 5), true), AggEq::Different);
+  }
+
+  #[test]
+  fn f64_aggregates_keep_the_tight_tolerance() {
+    let a = json!({"a": {"type": "stats", "sum": 10.968074798583984, "count": 3}});
+    let b = json!({"a": {"type": "stats", "sum": 10.968073844909668, "count": 3}});
+    assert_eq!(agg_cmp(&a, &b, true), AggEq::Different);
+    assert_eq!(agg_cmp(&a, &a, true), AggEq::Same);
+  }
+
+  #[test]
+  fn score_order_detection() {
+    assert!(top_hits_orders_by_score(&json!({"type": "terms", "field": "tag", "aggs": {"s": {"type": "top_hits", "size": 1, "sort": []}}})));
+    assert!(top_hits_orders_by_score(&json!({"type": "top_hits", "size": 1, "sort": [{"field": "tag"}, {"field": "_score"}]})));
+    assert!(!top_hits_orders_by_score(&json!({"type": "top_hits", "size": 1, "sort": [{"field": "tag"}]})));
+    assert!(!top_hits_orders_by_score(&json!({"type": "stats", "field": "year"})));
   }
 }
